@@ -4,6 +4,9 @@ package tcell
 
 import (
 	ic "image/color"
+	"math"
+
+	"github.com/lucasb-eyer/go-colorful"
 )
 
 // C16 — colour conversions, table, names, FindColor.
@@ -57,4 +60,113 @@ func H16_image() {
 	c2 := FromImageColor(ic.RGBA64{R: r16, G: g16, B: b16, A: 0xffff})
 	vsymAssert(c2 == NewRGBColor(int32(r16>>8), int32(g16>>8), int32(b16>>8)), "FromImageColor(RGBA64) keeps high bytes")
 	vsymAssert(c2.Valid() && c2.IsRGB(), "FromImageColor valid RGB")
+}
+
+// H16_table: palette 0..255 has the standard xterm RGB values.
+var h16ansi = [16]int32{0x000000, 0x800000, 0x008000, 0x808000, 0x000080, 0x800080, 0x008080, 0xc0c0c0,
+	0x808080, 0xff0000, 0x00ff00, 0xffff00, 0x0000ff, 0xff00ff, 0x00ffff, 0xffffff}
+var h16levels = [6]int32{0, 95, 135, 175, 215, 255}
+
+func H16_table() {
+	switch vsymChoice("region", 3) {
+	case 0: // 16 ANSI colours
+		i := vsymInt("i")
+		vsymAssume(i >= 0 && i < 16)
+		c := PaletteColor(i)
+		vsymAssert(c.Valid() && !c.IsRGB(), "palette colour valid, not RGB")
+		vsymAssert(c.Hex() == h16ansi[i], "ANSI colour i has the xterm RGB value")
+	case 1: // 6x6x6 cube
+		r, g, b := vsymInt("r"), vsymInt("g"), vsymInt("b")
+		vsymAssume(r >= 0 && r < 6 && g >= 0 && g < 6 && b >= 0 && b < 6)
+		// index 16+36r+6g+b, spelled with tables (constant multiplication stalls the bit-blaster)
+		m36 := [6]int{0, 36, 72, 108, 144, 180}
+		m6 := [6]int{0, 6, 12, 18, 24, 30}
+		c := PaletteColor(16 + m36[r] + m6[g] + b)
+		vsymAssert(c.Hex() == h16levels[r]<<16|h16levels[g]<<8|h16levels[b], "cube colour 16+36r+6g+b has levels (r,g,b)")
+		cr, cg, cb := c.RGB()
+		vsymAssert(cr == h16levels[r] && cg == h16levels[g] && cb == h16levels[b], "cube colour RGB components")
+		vsymAssert(c.TrueColor() == NewRGBColor(cr, cg, cb), "TrueColor of palette colour is its RGB value")
+	case 2: // 24 greys
+		k := vsymInt("k")
+		vsymAssume(k >= 0 && k < 24)
+		c := PaletteColor(232 + k)
+		v := int32(8 + 10*k)
+		vsymAssert(c.Hex() == v<<16|v<<8|v, "grey 232+k has level 8+10k")
+	}
+}
+
+// H16_names: every W3C/CSS colour name resolves to its CSS value.
+func H16_names() {
+	idx := vsymInt("idx")
+	vsymAssume(idx >= 0 && idx < len(h16CSS))
+	e := h16CSS[idx]
+	c := GetColor(e.name)
+	vsymNote("name", e.name)
+	vsymAssert(c.Valid(), "W3C colour name is known")
+	vsymAssert(c.Hex() == e.v, "W3C colour name maps to its CSS value")
+	vsymAssert(c.TrueColor().Hex() == e.v, "TrueColor of named colour keeps the CSS value")
+}
+
+// H16_css: CSS()/GetColor("#RRGGBB") round-trip for every 24-bit value.
+func H16_css() {
+	v := vsymInt32("v")
+	vsymAssume(v >= 0 && v <= 0xffffff)
+	c := NewHexColor(v)
+	s := c.CSS()
+	vsymAssert(len(s) == 7 && s[0] == '#', "CSS() is # followed by six characters")
+	vsymAssert(GetColor(s) == c, "GetColor(CSS()) round-trips")
+}
+
+// h16distance computes the distance exactly as FindColor does (same library
+// call, hence the same uninterpreted function in the engine; NaN counts as +Inf).
+func h16distance(c, d Color) float64 {
+	r, g, b := c.RGB()
+	c1 := colorful.Color{R: float64(r) / 255.0, G: float64(g) / 255.0, B: float64(b) / 255.0}
+	r, g, b = d.RGB()
+	c2 := colorful.Color{R: float64(r) / 255.0, G: float64(g) / 255.0, B: float64(b) / 255.0}
+	nd := c1.DistanceCIE76(c2)
+	if math.IsNaN(nd) {
+		nd = math.Inf(1)
+	}
+	return nd
+}
+
+// h16color returns a symbolic valid colour of a chosen kind: 0 = palette index
+// 0..255, 1 = 24-bit RGB, 2 = any other word with ColorValid (unknown to the table).
+func h16color(name string, kind int) Color {
+	switch kind {
+	case 0:
+		return Color(vsymByte(name)) | ColorValid
+	case 1:
+		return Color(vsymUint32(name)&0xffffff) | ColorValid | ColorIsRGB
+	}
+	c := Color(vsymUint64(name))
+	vsymAssume(c.Valid())
+	return c
+}
+
+// H16_find: FindColor returns a palette member and no member is strictly closer.
+// The CIE76 distance is an uninterpreted Float64 function (may be NaN).
+func H16_find() {
+	n := vsymChoice("n", vsymParam("maxpal", 3)+1)
+	c := h16color("c", vsymChoice("kc", vsymParam("kinds", 3)))
+	pal := make([]Color, n)
+	for i := range pal {
+		pal[i] = h16color("p", vsymChoice("kp", vsymParam("kinds", 3)))
+	}
+	m := FindColor(c, pal)
+	if n == 0 {
+		vsymAssert(m == ColorDefault, "empty palette gives the default colour")
+		return
+	}
+	member := false
+	for i := range pal {
+		member = vsymOr(member, pal[i] == m)
+	}
+	vsymAssert(member, "FindColor result is a member of the palette")
+	dm := h16distance(c, m)
+	for i := range pal {
+		di := h16distance(c, pal[i])
+		vsymAssert(!(di < dm), "no palette member is strictly closer than the result")
+	}
 }
